@@ -22,6 +22,8 @@ func (c *Cluster) finalChecks(spec *runSpec) {
 		}
 	}
 	c.finalStoreCheck()
+	c.runOracles(true)
+	c.checkC05End()
 	if c.finalHook != nil {
 		c.finalHook()
 	}
